@@ -10,9 +10,12 @@ def run(chk):
         pc.record_and_validate(chk, p, "pair", scn, n, "pair-p%d" % p)
     scn, n = pc.scenarios(chk, "big193")
     pc.record_and_validate(chk, 193, "pair", pc.thin(scn, 1, 4000), 16 if thorough else 8, "pair-big-p193")
+    # several 256-element blocks (530 / 600 field elements); measurements that differ in the first, second and last block
+    scn, n = pc.scenarios(chk, "huge193")
+    pc.record_and_validate(chk, 193, "pair", pc.thin(scn, 1 if thorough else 2, 12), 12, "pair-huge-p193", nchunks=6)
     chk.exhaustive = False
     chk.explanation = (
-        "For every pair of consecutive measurements of every circuit in the TLC-generated lattice, the real Prio3 shards both with the same randomness and nonce; "
+        "For every pair of consecutive measurements of every circuit in the TLC-generated lattice (incl. inputs of 128-192 and of 530/600 field elements, i.e. several encoding blocks), the real Prio3 shards both with the same randomness and nonce; "
         "TLC validates both shardings byte-for-byte against the spec and checks the pair relation: every helper input share byte-identical, the leader's blind "
         "identical, only the leader's joint-randomness part of the public share may differ, and leader_meas(m1) - leader_meas(m2) = Encode(m1) - Encode(m2). "
         "The recorded XOF queries show that no helper-share derivation contains measurement-dependent bytes.")
